@@ -11,6 +11,7 @@ import (
 	"sort"
 	"strings"
 	"sync"
+	"sync/atomic"
 
 	"context"
 	"io"
@@ -88,6 +89,11 @@ type input struct {
 	Lazy    bool  `json:"lazy,omitempty"`
 	Limit   int64 `json:"limit,omitempty"`
 	Reqs    int   `json:"reqs,omitempty"`  // concurrent requests (default 1)
+	// sched / stress: threads of pool operations (Put index = k-th slice the thread still holds)
+	Threads [][]pop `json:"threads,omitempty"`
+	Sched   []int   `json:"sched,omitempty"` // sched: thread making the next step
+	Park    int     `json:"park,omitempty"`  // sched: 1-based index of the schedule step whose Get is parked in the allocation (0 = none)
+	Repeat  int     `json:"repeat,omitempty"` // stress: repetitions
 	NFail   int   `json:"nfail,omitempty"` // the first NFail stores refuse the stream
 	Kind   string  `json:"kind"` // pool | shard | proxy
 	Min    int     `json:"min,omitempty"`
@@ -358,6 +364,10 @@ func run(raw json.RawMessage) (common.Case, error) {
 		}
 		c.Nontrivial = in.MaxTot > 0 && len(ops) >= 3
 		return c, nil
+	case "sched":
+		return runSched(in)
+	case "stress":
+		return runStress(in)
 	case "proxy":
 		runtime.GOMAXPROCS(1)
 		old := debug.SetGCPercent(-1)
@@ -501,6 +511,307 @@ func run(raw json.RawMessage) (common.Case, error) {
 	return c, fmt.Errorf("bad kind %q", in.Kind)
 }
 
+func threadsCoq(ths [][]pop) string {
+	var ts []string
+	for _, th := range ths {
+		var os []string
+		for _, o := range th {
+			if o.G != nil {
+				os = append(os, common.App("TGet", common.N(uint64(*o.G))))
+			} else if o.P != nil {
+				os = append(os, common.App("TPut", common.Nat(*o.P)))
+			}
+		}
+		ts = append(ts, common.List(os))
+	}
+	return common.List(ts)
+}
+
+func cleanThreads(ths [][]pop) [][]pop {
+	out := make([][]pop, len(ths))
+	for i, th := range ths {
+		for _, o := range th {
+			if (o.G != nil && *o.G >= 0) || (o.P != nil && *o.P >= 0) {
+				out[i] = append(out[i], o)
+			}
+		}
+	}
+	return out
+}
+
+// runSched executes the threads' operations one at a time in schedule order on one real pool.
+// The Get of step Park is parked inside the pool's allocation function; while it is parked the
+// following steps of OTHER threads are executed if (and only if) the pool's lock is free.
+func runSched(in input) (common.Case, error) {
+	var c common.Case
+	p, err := pool.NewBucketedPool[byte](in.Min, in.Max, in.Factor, in.MaxTot)
+	if err != nil {
+		return c, err
+	}
+	var sizes []uint64
+	for _, s := range p.VerifC17Sizes() {
+		sizes = append(sizes, uint64(s))
+	}
+	ths := cleanThreads(in.Threads)
+	held := make([][]*[]byte, len(ths))
+	pcs := make([]int, len(ths))
+	type ob struct {
+		Ok   bool   `json:"ok"`
+		Cap  uint64 `json:"cap"`
+		Used uint64 `json:"used"`
+	}
+	obs := make([]ob, len(in.Sched))
+	var parkNow atomic.Bool
+	entered, release := make(chan struct{}), make(chan struct{})
+	var orig func(int) *[]byte
+	orig = p.VerifC17SetNew(func(sz int) *[]byte {
+		if parkNow.CompareAndSwap(true, false) {
+			close(entered)
+			<-release
+		}
+		return orig(sz)
+	})
+	outstanding := func() uint64 {
+		var t uint64
+		for _, h := range held {
+			for _, b := range h {
+				t += uint64(cap(*b))
+			}
+		}
+		return t
+	}
+	check := func(where string) {
+		if c.GoPred != "" || in.MaxTot == 0 {
+			return
+		}
+		if o := outstanding(); o > in.MaxTot {
+			c.GoPred = fmt.Sprintf("%d bytes are checked out at the same time, maxTotal is %d (%s)", o, in.MaxTot, where)
+			c.Sig = "concurrent-budget-exceeded"
+		} else if u := p.UsedBytes(); u > in.MaxTot {
+			c.GoPred = fmt.Sprintf("UsedBytes %d exceeds maxTotal %d (%s)", u, in.MaxTot, where)
+			c.Sig = "concurrent-budget-exceeded"
+		}
+	}
+	// plain executes the next operation of thread i
+	plain := func(idx, i int) {
+		if i < 0 || i >= len(ths) || pcs[i] >= len(ths[i]) {
+			obs[idx] = ob{true, 0, p.UsedBytes()}
+			return
+		}
+		o := ths[i][pcs[i]]
+		pcs[i]++
+		if o.G != nil {
+			b, err := p.Get(*o.G)
+			if err == nil {
+				held[i] = append(held[i], b)
+				obs[idx] = ob{true, uint64(cap(*b)), p.UsedBytes()}
+			} else {
+				obs[idx] = ob{false, 0, p.UsedBytes()}
+			}
+		} else {
+			k := *o.P
+			if k < len(held[i]) {
+				b := held[i][k]
+				held[i] = append(held[i][:k], held[i][k+1:]...)
+				p.Put(b)
+			}
+			obs[idx] = ob{true, 0, p.UsedBytes()}
+		}
+		check(fmt.Sprintf("after step %d", idx+1))
+	}
+	overlapped := false
+	for idx := 0; idx < len(in.Sched); idx++ {
+		i := in.Sched[idx]
+		parkable := idx+1 == in.Park && i >= 0 && i < len(ths) && pcs[i] < len(ths[i]) && ths[i][pcs[i]].G != nil
+		if !parkable {
+			plain(idx, i)
+			continue
+		}
+		o := ths[i][pcs[i]]
+		pcs[i]++
+		type res struct {
+			b   *[]byte
+			err error
+		}
+		resCh := make(chan res, 1)
+		parkNow.Store(true)
+		go func() {
+			b, err := p.Get(*o.G)
+			resCh <- res{b, err}
+		}()
+		var r res
+		select {
+		case r = <-resCh: // the allocation function was not called: nothing to park
+			parkNow.Store(false)
+		case <-entered:
+			last := idx
+			if p.VerifC17LockFree() {
+				// the pool's lock is free while this Get sits between its budget test and its accounting
+				overlapped = true
+				for last+1 < len(in.Sched) && in.Sched[last+1] != i {
+					last++
+					plain(last, in.Sched[last])
+				}
+			}
+			close(release)
+			r = <-resCh
+			if r.err == nil {
+				held[i] = append(held[i], r.b)
+				obs[idx] = ob{true, uint64(cap(*r.b)), p.UsedBytes()}
+			} else {
+				obs[idx] = ob{false, 0, p.UsedBytes()}
+			}
+			check(fmt.Sprintf("after the parked step %d", idx+1))
+			idx = last
+			continue
+		}
+		if r.err == nil {
+			held[i] = append(held[i], r.b)
+			obs[idx] = ob{true, uint64(cap(*r.b)), p.UsedBytes()}
+		} else {
+			obs[idx] = ob{false, 0, p.UsedBytes()}
+		}
+		check(fmt.Sprintf("after step %d", idx+1))
+	}
+	var oc []string
+	for _, o := range obs {
+		oc = append(oc, common.Tuple(common.Bool(o.Ok), common.N(o.Cap), common.N(o.Used)))
+	}
+	var sc []string
+	for _, i := range in.Sched {
+		if i < 0 {
+			i = 1 << 20
+		}
+		sc = append(sc, common.Nat(i))
+	}
+	c.Coq = common.App("CSched", nList(sizes), common.N(in.MaxTot), threadsCoq(ths), common.List(sc), common.List(oc))
+	c.Obs = map[string]any{"sizes": sizes, "obs": obs, "ran_during_parked_get": overlapped}
+	c.Class = "sched"
+	if in.Park > 0 {
+		c.Class = "sched/parked"
+	}
+	c.Nontrivial = in.MaxTot > 0 && len(ths) >= 2 && len(in.Sched) >= 3
+	return c, nil
+}
+
+// runStress releases the threads together through a barrier on a fresh pool, Repeat times.
+func runStress(in input) (common.Case, error) {
+	var c common.Case
+	runtime.GOMAXPROCS(4)
+	ths := cleanThreads(in.Threads)
+	var sizes []uint64
+	var maxOut, maxUsed, maxFinal uint64
+	reps := in.Repeat
+	if reps < 1 {
+		reps = 1
+	}
+	for rep := 0; rep < reps; rep++ {
+		p, err := pool.NewBucketedPool[byte](in.Min, in.Max, in.Factor, in.MaxTot)
+		if err != nil {
+			return c, err
+		}
+		if rep == 0 {
+			for _, s := range p.VerifC17Sizes() {
+				sizes = append(sizes, uint64(s))
+			}
+		}
+		var orig func(int) *[]byte
+		orig = p.VerifC17SetNew(func(sz int) *[]byte { runtime.Gosched(); return orig(sz) })
+		var out atomic.Uint64
+		var mOut, mUsed atomic.Uint64
+		upd := func(m *atomic.Uint64, v uint64) {
+			for {
+				o := m.Load()
+				if v <= o || m.CompareAndSwap(o, v) {
+					return
+				}
+			}
+		}
+		start := make(chan struct{})
+		var wg sync.WaitGroup
+		for i := range ths {
+			wg.Add(1)
+			go func(ops []pop) {
+				defer wg.Done()
+				var held []*[]byte
+				<-start
+				for _, o := range ops {
+					if o.G != nil {
+						if b, err := p.Get(*o.G); err == nil {
+							held = append(held, b)
+							upd(&mOut, out.Add(uint64(cap(*b))))
+						}
+					} else if k := *o.P; k < len(held) {
+						b := held[k]
+						held = append(held[:k], held[k+1:]...)
+						out.Add(^uint64(cap(*b) - 1))
+						p.Put(b)
+					}
+					upd(&mUsed, p.UsedBytes())
+				}
+				for _, b := range held {
+					out.Add(^uint64(cap(*b) - 1))
+					p.Put(b)
+				}
+			}(ths[i])
+		}
+		close(start)
+		wg.Wait()
+		if v := mOut.Load(); v > maxOut {
+			maxOut = v
+		}
+		if v := mUsed.Load(); v > maxUsed {
+			maxUsed = v
+		}
+		if v := p.UsedBytes(); v > maxFinal {
+			maxFinal = v
+		}
+	}
+	exceeded := in.MaxTot > 0 && (maxOut > in.MaxTot || maxUsed > in.MaxTot)
+	c.Coq = common.App("CStress", nList(sizes), common.N(in.MaxTot), threadsCoq(ths), common.Bool(exceeded), common.N(maxFinal))
+	c.Obs = map[string]any{"sizes": sizes, "repetitions": reps, "max_checked_out": maxOut, "max_used_bytes": maxUsed, "final_used_bytes": maxFinal}
+	c.Class = "stress"
+	c.Nontrivial = in.MaxTot > 0 && len(ths) >= 2
+	if exceeded {
+		c.GoPred = fmt.Sprintf("with %d goroutines released together, up to %d bytes were checked out and UsedBytes reached %d; maxTotal is %d", len(ths), maxOut, maxUsed, in.MaxTot)
+		c.Sig = "concurrent-budget-exceeded"
+	} else if maxFinal != 0 {
+		c.GoPred = fmt.Sprintf("UsedBytes is %d after every slice was returned", maxFinal)
+		c.Sig = "concurrent-not-zero"
+	}
+	return c, nil
+}
+
+func genThreads(r *rand.Rand, in *input, maxOps int) {
+	in.Factor = 2
+	in.Min = common.Pick(r, 10, 8, 16, 5)
+	in.Max = in.Min * common.Pick(r, 8, 10, 16)
+	nt := 2 + r.Intn(3)
+	big := in.Min * 8
+	// budget tight enough that only one of the big requests fits
+	in.MaxTot = uint64(big + r.Intn(big))
+	if r.Intn(8) == 0 {
+		in.MaxTot = uint64(3*big + r.Intn(big))
+	}
+	ip := func(v int) *int { return &v }
+	for t := 0; t < nt; t++ {
+		var ops []pop
+		heldN := 0
+		k := 1 + r.Intn(maxOps)
+		for j := 0; j < k; j++ {
+			if heldN > 0 && r.Intn(3) == 0 {
+				ops = append(ops, pop{P: ip(r.Intn(heldN))})
+				heldN--
+				continue
+			}
+			sz := common.Pick(r, big, big-1, big/2+1, big/2, in.Min, in.Max+5, 1+r.Intn(in.Max))
+			ops = append(ops, pop{G: ip(sz)})
+			heldN++
+		}
+		in.Threads = append(in.Threads, ops)
+	}
+}
+
 func gen(r *rand.Rand, tier string, n int) []any {
 	var out []any
 	maxOps := 14
@@ -508,6 +819,47 @@ func gen(r *rand.Rand, tier string, n int) []any {
 		maxOps = 60
 	}
 	ip := func(v int) *int { return &v }
+	for i := 0; i < n/10; i++ { // threads on one pool, executed in schedule order with one Get parked in the allocation
+		in := input{Kind: "sched"}
+		genThreads(r, &in, 4)
+		left := make([]int, len(in.Threads))
+		tot := 0
+		for t, th := range in.Threads {
+			left[t] = len(th)
+			tot += len(th)
+		}
+		pos := make([]int, len(in.Threads))
+		var getSteps []int
+		for tot > 0 {
+			t := r.Intn(len(left))
+			if left[t] == 0 {
+				continue
+			}
+			if in.Threads[t][pos[t]].G != nil {
+				getSteps = append(getSteps, len(in.Sched)+1)
+			}
+			pos[t]++
+			in.Sched = append(in.Sched, t)
+			left[t]--
+			tot--
+		}
+		if len(getSteps) > 0 && r.Intn(6) != 0 {
+			in.Park = getSteps[r.Intn(len(getSteps))]
+			if r.Intn(2) == 0 {
+				in.Park = getSteps[0]
+			}
+		}
+		out = append(out, in)
+	}
+	nStress := n / 40
+	for i := 0; i < nStress; i++ {
+		in := input{Kind: "stress", Repeat: 60}
+		if tier == "thorough" {
+			in.Repeat = 200
+		}
+		genThreads(r, &in, 3)
+		out = append(out, in)
+	}
 	for i := 0; i < n/20; i++ {
 		in := input{Kind: "proxy", Stores: 1 + r.Intn(5), Series: r.Intn(6), Sharded: r.Intn(4) != 0, Lazy: r.Intn(2) == 0, Reqs: 1 + r.Intn(3)}
 		if r.Intn(3) == 0 {
@@ -518,7 +870,7 @@ func gen(r *rand.Rand, tier string, n int) []any {
 		}
 		out = append(out, in)
 	}
-	for i := 0; i < n-n/20; i++ {
+	for i := 0; i < n-n/20-n/10-nStress; i++ {
 		if r.Intn(4) != 0 {
 			in := input{Kind: "pool", Factor: common.Pick(r, 2.0, 2.0, 1.5, 3.0, 1.0)}
 			in.Min = 1 + r.Intn(16)
